@@ -18,10 +18,11 @@ r = sh('go build ./... && go test -count=1 ./... 2>&1 | tail -5', cwd=wt)
 suite_ok = ('FAIL' not in r.stdout) or all(('TestFormatFlags' in l or l.strip() in ('FAIL',) or l.startswith('FAIL\tgithub.com')) for l in r.stdout.splitlines() if 'FAIL' in l)
 log['suite_with_change'] = r.stdout.strip()[-300:]
 shutil.copy(os.path.join(seed, 'demo_test.go'), os.path.join(wt, 'zz_seed_demo_test.go'))
-r1 = sh("go test -count=1 -run 'TestSeeded' . 2>&1 | tail -3", cwd=wt)
+race = '-race ' if meta.get('property') == 'C18' else ''   # C18 demonstrations are run under the race detector
+r1 = sh("go test %s-count=1 -run 'TestSeeded' . 2>&1 | tail -3" % race, cwd=wt)
 demo_fails_with = 'FAIL' in r1.stdout
 sh(['git', 'apply', '-R', os.path.join(seed, 'patch.diff')], cwd=wt)
-r2 = sh("go test -count=1 -run 'TestSeeded' . 2>&1 | tail -3", cwd=wt)
+r2 = sh("go test %s-count=1 -run 'TestSeeded' . 2>&1 | tail -3" % race, cwd=wt)
 demo_passes_without = r2.stdout.strip().startswith('ok') or '\nok' in r2.stdout
 sh(['git', 'apply', os.path.join(seed, 'patch.diff')], cwd=wt)
 os.remove(os.path.join(wt, 'zz_seed_demo_test.go'))
